@@ -170,6 +170,18 @@ pub fn cases(tier: &str) -> Vec<Value> {
             }
         }
     }
+    // (g) records of types the forwarder gives no meaning to are relayed octet for octet
+    for t in [0u16, 3, 4, 7, 8, 9, 10, 11, 13, 14, 16, 19, 20, 22, 24, 25, 26, 29, 33, 36, 37, 39, 42, 43, 44, 45, 46, 47, 48, 50, 51, 52, 55, 59, 60, 61, 64, 65, 99, 108, 109, 249, 250, 251, 256, 257, 32768, 32769, 65280, 65534, 65535] {
+        for shape in 0..3u64 {
+            for tr in ["udp", "tcp"] {
+                if t == 0 || t == 249 || t == 250 || t == 251 {
+                    // TKEY/TSIG/IXFR and type 0 are meta types: not record data an upstream sends in these sections
+                    continue;
+                }
+                out.push(json!({"engine":"enet","check":"c03","q":{"name":"opaque.example.com","type":t,"class":1,"edns":"plain","flags":"rd","transport":tr},"r":{"rcode":0,"an":[],"ns":[],"ar":[],"compress":true,"opt":true,"opaque":[t, shape]}}));
+            }
+        }
+    }
     // (f) answers larger than what the client accepts over UDP (512 octets without EDNS, or what it
     // advertised), with the cut falling in the answer, the authority and the additional section:
     // unless the reply is marked truncated, nothing may be missing
@@ -252,6 +264,18 @@ pub fn build_reply(r: &Value, oq: &Msg) -> Msg {
     let mut additional = pick("ar");
     let mut answer = pick("an");
     let mut authority = pick("ns");
+    // opaque: [type, shape] -- one record of a type the forwarder gives no meaning to, whose data
+    // merely LOOKS like something (a compression pointer, a name), in the answer and additional section
+    if let Some(o) = r["opaque"].as_array() {
+        let t = o[0].as_u64().unwrap_or(99) as u16;
+        let data: Vec<u8> = match o[1].as_u64().unwrap_or(0) {
+            0 => vec![0xc0, 0x0c],
+            1 => vec![0, 1, 0, 1, 3, b'w', b'w', b'w', 0xc0, 0x0c],
+            _ => vec![],
+        };
+        answer.push(Rr { name: qname.clone(), rtype: t, class: 1, ttl: 120, rdata: rd::Rdata::Raw(data.clone()) });
+        additional.push(Rr { name: qname.clone(), rtype: t, class: 1, ttl: 120, rdata: rd::Rdata::Raw(data) });
+    }
     // bulk: [a, n, g] further records -- a address records for the question name, n NS records for
     // its parent naming ns<i>.glue.<parent>, g address ("glue") records for those names
     if let Some(b) = r["bulk"].as_array() {
@@ -692,7 +716,7 @@ pub fn run(tier: &str, replay: Option<Value>) -> ! {
     let agg = netrun::run_sharded(&mut rep, "C03", tier, cases, 16);
     rep.cov("evaluations", agg.executions);
     rep.cov("distinct_nontrivial", agg.classes.len() as u64);
-    rep.cov("rule", "one fault-free exchange per execution on a fresh in-process DnsService ([::1] listener): (a) every query shape (3 names x 5 types x 2 classes x 5 EDNS x 3 flag sets x UDP/TCP) x fixed replies; (b) fixed queries x every reply shape (rcodes x one section over all record lists of length <=2 from a 9-record alphabet (incl. records whose names share a suffix first written inside an earlier record's rdata), the other sections in {[],[1]} x compression x OPT absent / last / first / in the middle of the additional section); (c) pairs of exchanges on one service whose second question differs from the first in one component (class x3, type x2 (QTYPE ANY is answered locally and therefore not part of this alphabet), name x2, CD, DO, EDNS, or nothing) x transport x order, the second answered differently upstream: the second client must get the upstream's answer to ITS question, or -- only for the identical question -- the first answer; (f) answers larger than the client accepts over UDP (cut in the answer / authority / additional section; 7 shapes x 3 advertised sizes x UDP/TCP): unless marked truncated nothing may be missing, and what a truncated reply carries is a prefix; (e) every response code (quick: 0..=23 and the boundary values of the upper 8 bits; thorough: all 4096) x client EDNS none/plain/DO x transport x empty / non-empty sections; (d) the same question asked three times with 1 s / 3 s in between while the upstream's TTL changes (2 s / 300 s per reply, all combinations): every answer is the most recent upstream reply with TTLs reduced by exactly the whole seconds since that reply. distinct = (rcode, section sizes, transport) classes");
+    rep.cov("rule", "one fault-free exchange per execution on a fresh in-process DnsService ([::1] listener): (a) every query shape (3 names x 5 types x 2 classes x 5 EDNS x 3 flag sets x UDP/TCP) x fixed replies; (b) fixed queries x every reply shape (rcodes x one section over all record lists of length <=2 from a 9-record alphabet (incl. records whose names share a suffix first written inside an earlier record's rdata), the other sections in {[],[1]} x compression x OPT absent / last / first / in the middle of the additional section); (c) pairs of exchanges on one service whose second question differs from the first in one component (class x3, type x2 (QTYPE ANY is answered locally and therefore not part of this alphabet), name x2, CD, DO, EDNS, or nothing) x transport x order, the second answered differently upstream: the second client must get the upstream's answer to ITS question, or -- only for the identical question -- the first answer; (g) one record of each of 47 further types with opaque data that looks like a pointer / a name / nothing, in the answer and additional section x UDP/TCP: relayed octet for octet; (f) answers larger than the client accepts over UDP (cut in the answer / authority / additional section; 7 shapes x 3 advertised sizes x UDP/TCP): unless marked truncated nothing may be missing, and what a truncated reply carries is a prefix; (e) every response code (quick: 0..=23 and the boundary values of the upper 8 bits; thorough: all 4096) x client EDNS none/plain/DO x transport x empty / non-empty sections; (d) the same question asked three times with 1 s / 3 s in between while the upstream's TTL changes (2 s / 300 s per reply, all combinations): every answer is the most recent upstream reply with TTLs reduced by exactly the whole seconds since that reply. distinct = (rcode, section sizes, transport) classes");
     rep.cov("exhaustive", true);
     rep.cov("outcome_classes", serde_json::json!(agg.classes));
     rep.cov("workers_in_private_netns", agg.isolated_workers as u64);
